@@ -74,6 +74,29 @@ func genSessParams(g *Gen, maxConn int) SessParams {
 
 func genC01(g *Gen) any {
 	sc := &C01Scenario{PatKey: g.Rng.Uint64()}
+	if g.Bool(0.08) {
+		// a lagging connection: hundreds of small frames overtake the ones in
+		// flight on a connection that is stalled (or almost never served)
+		sc.Sess = SessParams{Method: byte(g.Int(0, 3)), NConn: g.Int(2, 4), InactS: 3600, WireLimit: g.Pick(0, minWireLimit)}
+		lag := g.Int(0, sc.Sess.NConn-1)
+		if g.Bool(0.5) {
+			sc.Sess.Stalls = []StallPlan{{Link: lag, Dir: g.Int(0, 1), DurMS: 30000}}
+		} else {
+			for i := 0; i < sc.Sess.NConn; i++ {
+				wt := 1.0
+				if i == lag {
+					wt = 0.0005
+				}
+				sc.Sess.Weights = append(sc.Sess.Weights, wt)
+			}
+		}
+		n := g.Int(3000, 6000)
+		sc.Streams = []StreamPlan{{SizeClass: 0, SizeSeed: g.Rng.Uint64(), ReadBuf: 40000, Up: n * g.Pick(0, 1, 1), Down: n * g.Pick(0, 1, 1)}}
+		if sc.Streams[0].Up+sc.Streams[0].Down == 0 {
+			sc.Streams[0].Up = n
+		}
+		return sc
+	}
 	sc.Sess = genSessParams(g, 8)
 	maxStreams, maxBytes := 6, 30000
 	if g.Tier == "thorough" {
